@@ -187,6 +187,25 @@ func (g *Gen) atEnv(in ssa.CallInstruction, val ssa.Value, ce callee, after bool
 		return g.resolveLocalAt(name, blk, idx, e)
 	}
 	env.old.lookup = env.lookup
+	{
+		// arg0, arg1, ...: the call's arguments (receiver first for method calls)
+		vars := map[string]TV{}
+		for k, v := range env.vars {
+			vars[k] = v
+		}
+		c := in.Common()
+		n := 0
+		if c.IsInvoke() {
+			vars["arg0"] = TV{g.v(c.Value), SInt, c.Value.Type()}
+			n = 1
+		}
+		for _, a := range c.Args {
+			vars[fmt.Sprintf("arg%d", n)] = TV{g.v(a), sortOf(a.Type()), a.Type()}
+			n++
+		}
+		env.vars = vars
+		env.old.vars = vars
+	}
 	if after && val != nil {
 		rs := g.resultTerms(val, ce.sig)
 		vars := map[string]TV{}
